@@ -11,22 +11,22 @@ import (
 // pinned tree's names for readability, and every lookup goes through an alias table that maps those role names to the
 // identifiers the *current* tree uses, resolved from types and shapes (never from the names themselves):
 //
-//   type:channel            the struct embedded by pointer in both exported channel types
-//   field:channel.state     its field of type SessionState;  .transport: of type Transport;  .sessionID: its only string
-//                           field;  .client: its only bool field;  .localNode: the Node field the server-channel
-//                           constructor stores;  .remoteNode: the other Node field
-//   type:rawEnvelope        the wire struct of the envelope codec (result type of Message's struct→wire method)
-//   method:rawEnvelope.envelopeType / .toEnvelope   its methods returning (string, error) / (envelope interface, error)
-//   method:<T>.toRawEnvelope / .populate            struct→wire / wire→struct method of each codec type (by signature)
-//   type:tcpTransport       the Transport implementation holding an io.LimitedReader;  its fields .limitedReader (by
-//                           type), .encryption (of type SessionEncryption), .eof (the bool field Connected() reads)
-//   type:ctxConn            the type carrying the Read/Write wrappers around net.Conn;  func:NewCtxConn its constructor
-//   type:tcpTransportListener  the TransportListener whose Accept builds a tcpTransport
-//   func:intersect / contains  the helper producing []interface{} from two interface{} operands / the bool helper it calls
-//   func:acceptTransports   the function with a send-only chan of Transport parameter
-//   func:sessionContext     the function (context.Context, *channel) context.Context
-//   method:Client.buildChannel / getOrBuildChannel / stopListener   by what they call
-//   type:<kind>Handler adapters and their predicate / handlerFunc fields  from the allocations in EnvelopeMux.<Kind>HandlerFunc
+//	type:channel            the struct embedded by pointer in both exported channel types
+//	field:channel.state     its field of type SessionState;  .transport: of type Transport;  .sessionID: its only string
+//	                        field;  .client: its only bool field;  .localNode: the Node field the server-channel
+//	                        constructor stores;  .remoteNode: the other Node field
+//	type:rawEnvelope        the wire struct of the envelope codec (result type of Message's struct→wire method)
+//	method:rawEnvelope.envelopeType / .toEnvelope   its methods returning (string, error) / (envelope interface, error)
+//	method:<T>.toRawEnvelope / .populate            struct→wire / wire→struct method of each codec type (by signature)
+//	type:tcpTransport       the Transport implementation holding an io.LimitedReader;  its fields .limitedReader (by
+//	                        type), .encryption (of type SessionEncryption), .eof (the bool field Connected() reads)
+//	type:ctxConn            the type carrying the Read/Write wrappers around net.Conn;  func:NewCtxConn its constructor
+//	type:tcpTransportListener  the TransportListener whose Accept builds a tcpTransport
+//	func:intersect / contains  the helper producing []interface{} from two interface{} operands / the bool helper it calls
+//	func:acceptTransports   the function with a send-only chan of Transport parameter
+//	func:sessionContext     the function (context.Context, *channel) context.Context
+//	method:Client.buildChannel / getOrBuildChannel / stopListener   by what they call
+//	type:<kind>Handler adapters and their predicate / handlerFunc fields  from the allocations in EnvelopeMux.<Kind>HandlerFunc
 func (p *Prog) resolveAliases() {
 	a := map[string]string{}
 	p.alias = a
